@@ -81,6 +81,148 @@ def parse_alpha(a):
     return float(a)
 
 
+# ---------------------------------------------------------------------------------- sessions
+# (additive: only used when a case has the key "session")  A session is a sequence of render
+# requests on ONE image instance; a request may be interrupted by an asynchronous exception at
+# the k-th line event inside term_image code (asyncfault) or by an ordinary exception raised by
+# the n-th call of something the render calls.  Every completed request is reported like a
+# single render, every interrupted one as {"interrupted": ...}.
+
+
+def _render_via(image, via, spec, alpha, args):
+    if via == "str":
+        return str(image)
+    if via == "format":
+        return format(image, spec)
+    return image._renderer(image._render_image, alpha, **args)
+
+
+def _apply_size(image, size):
+    from term_image.image import Size
+    if size is None:
+        return
+    if isinstance(size, str):
+        image.set_size(Size[size.upper()])
+    else:
+        image.set_size(width=size[0], height=size[1])
+
+
+class _Raiser:
+    """Patches `target` ("module:attr[.attr...]") so that its n-th call raises `exc`."""
+
+    def __init__(self, target, nth, exc):
+        import builtins
+        import importlib
+        mod, _, path = target.partition(":")
+        parts = path.split(".")
+        owner = importlib.import_module(mod)
+        self.parent, self.pname = None, None
+        for name in parts[:-1]:
+            self.parent, self.pname = owner, name
+            owner = getattr(owner, name)
+        self.owner, self.name = owner, parts[-1]
+        self.nth, self.calls, self.fired = nth, 0, False
+        self.exc = getattr(builtins, exc)
+        self.orig = getattr(owner, self.name)
+        self.subclassed = None
+
+    def _hit(self):
+        self.calls += 1
+        if self.calls == self.nth and not self.fired:
+            self.fired = True
+            raise self.exc("injected by the session driver")
+
+    def __enter__(self):
+        orig, hit = self.orig, self._hit
+
+        def wrapper(*a, **k):
+            hit()
+            return orig(*a, **k)
+
+        try:
+            setattr(self.owner, self.name, wrapper)
+        except TypeError:
+            # a built-in type (io.StringIO ...): substitute a subclass in its module
+            sub = type(self.owner.__name__, (self.owner,), {self.name: wrapper})
+            self.subclassed = getattr(self.parent, self.pname)
+            setattr(self.parent, self.pname, sub)
+        return self
+
+    def __exit__(self, *a):
+        if self.subclassed is not None:
+            setattr(self.parent, self.pname, self.subclassed)
+        else:
+            setattr(self.owner, self.name, self.orig)
+        return False
+
+
+def run_session(case, cls, image, captured):
+    import builtins
+    from asyncfault import AsyncFault
+    style = case["style"]
+    results = []
+    for step in case["session"]:
+        _apply_size(image, step.get("size"))
+        via = step.get("via", "renderer")
+        spec = step.get("spec", "")
+        alpha = parse_alpha(step.get("alpha"))
+        args = dict(step.get("args", {}))
+        fault = step.get("fault") or {}
+        captured.clear()
+        info = {}
+        try:
+            if "async" in fault:
+                k = fault["async"].get("k")
+                if k is None:
+                    # counting run on a fresh instance with the same size setting
+                    probe = cls(make_image(case["img"]))
+                    sz = image.size
+                    if isinstance(sz, tuple):
+                        probe.set_size(width=sz[0], height=sz[1])
+                    else:
+                        probe.set_size(sz)
+                    with AsyncFault(k=None) as counter:
+                        try:
+                            _render_via(probe, via, spec, alpha, args)
+                        except Exception:
+                            pass
+                    n = counter.count
+                    k = min(n, 1 + int(fault["async"].get("frac", 0.5) * n)) if n else 1
+                    info["n"] = n
+                    captured.clear()
+                info["k"] = k
+                exc_cls = getattr(builtins, fault["async"].get("exc", "KeyboardInterrupt"))
+                with AsyncFault(k=k, exc=exc_cls) as f:
+                    try:
+                        out = _render_via(image, via, spec, alpha, args)
+                    finally:
+                        info["fired"], info["where"] = f.fired, list(f.where) if f.where else None
+            elif "raise" in fault:
+                r = fault["raise"]
+                with _Raiser(r["target"], r.get("nth", 1), r.get("exc", "MemoryError")) as f:
+                    try:
+                        out = _render_via(image, via, spec, alpha, args)
+                    finally:
+                        info["fired"], info["calls"] = f.fired, f.calls
+            else:
+                out = _render_via(image, via, spec, alpha, args)
+        except BaseException as e:  # noqa: BLE001
+            if info.get("fired"):
+                results.append({"interrupted": type(e).__name__, **info})
+            else:
+                results.append({"error": f"{type(e).__name__}: {e}", **info})
+            continue
+        res = {"out": out, "rendered_size": list(image.rendered_size), **info}
+        if style == "block" and "data" in captured:
+            im2, rgb, a = captured["data"]
+            res["alpha_mode"] = im2.mode == "RGBA"
+            res["rgb"] = [list(p) for p in rgb]
+            res["a"] = list(a)
+            res["render_px"] = list(image._get_render_size())
+        results.append(res)
+    return {"session": results}
+
+
 def run_case(case):
     style = case["style"]
     cls = {"block": BlockImage, "kitty": KittyImage, "iterm2": ITerm2Image}[style]
@@ -129,6 +271,8 @@ def run_case(case):
                 term_image.set_cell_ratio(dyn["ratio"])
         else:
             image = cls(img, width=w, height=h)
+        if case.get("session") is not None:
+            return run_session(case, cls, image, captured)
         pinned = []
         if case.get("resize_during"):
             # the terminal is resized while ONE render is in progress: from its k-th query of the
